@@ -134,7 +134,8 @@ def gen_observe(r, k):
                 params.append(dict(key=key, values=values_for(r, key, r.choice([2, 3]), with_fail=with_fail)))
         if not with_fail and not reject and not single and r.random() < 0.06:
             params.append(dict(key=K + "nomodel.arguments.x", values=[1.0, 2.0]))      # unknown key: refused up front
-        calls.append(dict(parameters=params, mode=mode, with_dask=dask, reject=reject))
+        calls.append(dict(parameters=params, mode=mode, with_dask=dask, reject=reject,
+                          scheduler=r.choice(["synchronous", "threads"]) if dask else None))
     # run orders / subsets: repeat the first call with its values reversed or thinned
     if r.random() < 0.5 and calls:
         c0 = copy.deepcopy(calls[0])
@@ -203,7 +204,7 @@ def gen_observe_container(r, k):
         cls = "container_default_sequential_sweep"
     elif variant == 2:
         calls = [dict(parameters=[scal], mode="sequential", with_dask=r.random() < 0.5),
-                 dict(parameters=[scal, seqp], mode="product", with_dask=False)]
+                 dict(parameters=[scal, seqp], mode="product", with_dask=r.random() < 0.5)]
     else:
         calls = [dict(parameters=[seqp], mode="sequential", with_dask=False),
                  dict(parameters=[scal], mode="product", with_dask=True)]
@@ -250,7 +251,8 @@ def gen_graph(r, k):
 
 
 def gen_fitness(r, k):
-    pname, spec, keys, lkey, has_fail = gen_spec(r, ["a2p_st", "mut_st", "mut_fl_st", "two_groups", "mem_mut", "st_mem_fl"][k % 6])
+    pname, spec, keys, lkey, has_fail = gen_spec(r, ["a2p_st", "mut_st", "mut_fl_st", "two_groups", "mem_mut",
+                                                     "st_mem_fl"][k % 6])
     spec["readout"] = dict(times=[1.0], non_destructive=False)
     ks = r.sample(keys, min(r.choice([1, 2]), len(keys)))
     if has_fail and K + "fl.arguments.arg" not in ks:
@@ -259,9 +261,50 @@ def gen_fitness(r, k):
     vecs = [[r.choice([v for v in DYADIC if v != 5.0]) for _ in ks] for _ in range(nv)]
     if has_fail:
         vecs[1][ks.index(K + "fl.arguments.arg")] = 5.0   # a failing candidate in the middle
+    elif r.random() < 0.4:
+        # a candidate whose value a detector setter REJECTS (update_processor itself raises), in the middle
+        dkey = r.choice(sorted(REJECTED))
+        good, bad = REJECTED[dkey]
+        ks.append(dkey)
+        for v in vecs:
+            v.append(r.choice(good))
+        vecs[r.randrange(1, len(vecs))][-1] = r.choice(bad)
     vecs.append(list(vecs[0]))                             # the first candidate again, after the others
+    j = r.randrange(len(vecs))
+    vecs.insert(j, list(vecs[j]))                          # the same candidate twice in a row
     return dict(kind="fitness", pipe=pname, spec=spec, variables=[dict(key=key, lo=0, hi=1000) for key in ks],
                 vectors=vecs, target=r.choice([0.0, 10.0, 2.5]))
+
+
+def gen_fitness_multi(r, k):
+    """Several processors per candidate (input_arguments -> build_processors), optionally a list-valued variable
+    (a slice of the decision vector) handed to a model that modifies its argument in place."""
+    ma = dict(func="verif_probes_c06.mutates_array", name="ma", arguments=dict(arr=[1.0, 2.0], scalar=0.0))
+    st = dict(func="verif_probes.stateful", name="st", arguments=dict(inc=1.0))
+    spec = dict(det=dict(kind="ccd", rows=1, cols=2), pipeline={G: [ma, st]},
+                readout=dict(times=[1.0], non_destructive=False), memory=r.choice([None, 3.0]),
+                pre_exposure=r.choice([0, 0, 1]))
+    if r.random() < 0.5:
+        spec["ndarray_args"] = [G + ".ma.arr"]
+    variant = k % 3
+    nproc = r.choice([2, 3])
+    in_key = r.choice([K + "ma.arguments.scalar", K + "st.arguments.inc"])
+    inputs = [dict(key=in_key, values=r.sample([1.0, 2.0, 4.0, 0.5], nproc))]
+    cls = "plain"
+    if variant == 0:      # list-valued variable + several processors: every processor gets the same slice
+        variables = [dict(key=K + "ma.arguments.arr", lo=0, hi=1000, n=2)]
+        cls = "array_variable_multi_processor"
+    elif variant == 1:    # list-valued variable, one processor
+        variables = [dict(key=K + "ma.arguments.arr", lo=0, hi=1000, n=2)]
+        inputs = []
+    else:                 # scalar variables, several processors
+        other = K + "st.arguments.inc" if in_key.endswith("scalar") else K + "ma.arguments.scalar"
+        variables = [dict(key=other, lo=0, hi=1000)]
+    width = sum(v.get("n") or 1 for v in variables)
+    vecs = [[r.choice([v for v in DYADIC if v != 5.0]) for _ in range(width)] for _ in range(r.choice([2, 3]))]
+    vecs.append(list(vecs[0]))
+    return dict(kind="fitness", pipe="ma_st", spec=spec, variables=variables, input_arguments=inputs, vectors=vecs,
+                target=r.choice([0.0, 2.5]), input_class=cls)
 
 
 # ------------------------------------------------------------------------------------------ Coq emission
@@ -514,12 +557,13 @@ def correspondence(ctx: Ctx, cases, tag="c"):
             for cfg, call in zip(c["calls"], o["calls"]):
                 ctx.count("evaluations", len(call["runs"]))
                 ctx.count("observation_calls")
-                ctx.dist("call", f"{cfg['mode']}/{'dask' if cfg['with_dask'] else 'loop'}"
+                ctx.dist("call", f"{cfg['mode']}/{('dask-' + (cfg.get('scheduler') or 'synchronous')) if cfg['with_dask'] else 'loop'}"
                                  f"{'/raised' if call['raised'] else ''}"
                                  f"{'/rejected_value' if cfg.get('reject') else ''}")
         else:
             ctx.count("evaluations", len(o["evals"]))
-            ctx.dist("call", "fitness")
+            ctx.dist("call", f"fitness/{o.get('processors', 1)}proc" + ("/list_variable" if any(
+                v.get("n") for v in c["variables"]) else ""))
             ctx.dist("fitness_raised", sum(1 for e in o["evals"] if e["raised"]))
         ctx.dist("pipeline", c["pipe"])
     return graphs, behs + fails, mism
@@ -533,6 +577,7 @@ def gen_cases(ctx: Ctx, ng, no, nf, salt="cases"):
     cases += [gen_observe_array(r, k) for k in range(max(3, no // 8))]
     cases += [gen_observe_container(r, k) for k in range(max(20, no // 2))]
     cases += [gen_fitness(r, k) for k in range(nf)]
+    cases += [gen_fitness_multi(r, k) for k in range(max(6, nf // 2))]
     return cases
 
 
